@@ -258,6 +258,33 @@ def run(ctx):
                     r6.check(ok, f"{mod.rel}:{qn}:reunite-scope", f"`{src(t)}` is consulted without `<job's cache_scope> == CacheScope.BACKEND`: a job that must not reuse results is reunited with an earlier remote job", mod.rel, t.lineno)
     if nre < 4:
         raise AnalysisError(f"only {nre} reunite lookups found in executors (expected >= 4)", "preexisting_")
+    # ---- C32.7 array reuniting indexes the eval-hash file with the remote element's own index ----
+    r7 = ctx.rule("C32.7", "eval_hashes[...] is indexed by the remote array element's own index, never by its position in an API listing", floor=3)
+    nidx = 0
+    for mod in repo.modules.values():
+        if not mod.rel.startswith("redun/executors/"):
+            continue
+        for qn, fn in mod.funcs.items():
+            for sub in ast.walk(fn):
+                if not (isinstance(sub, ast.Subscript) and src(sub.value) == "eval_hashes" and isinstance(sub.ctx, ast.Load) and mod.enclosing_func(sub) is fn):
+                    continue
+                nidx += 1
+                idx = src(sub.slice)
+                positional = None
+                for lp in ast.walk(fn):
+                    if isinstance(lp, (ast.For, ast.comprehension)) and isinstance(lp.iter, ast.Call) and call_name(lp.iter) == "enumerate" and isinstance(lp.target, ast.Tuple) and lp.target.elts and src(lp.target.elts[0]) == idx:
+                        positional = lp
+                r7.check(
+                    positional is None,
+                    f"{mod.rel}:{qn}:eval_hashes[{idx}]",
+                    f"`eval_hashes[{idx}]` uses the position of the element in `{src(positional.iter)[:60] if positional is not None else ''}` as its array index: the listing order of remote tasks is not the "
+                    "submission order (e.g. sorted by name: 0, 1, 10, 2, ...), so an in-flight task is paired with the evaluation hash of a different array element and a job is reunited with a remote job "
+                    "created for another evaluation",
+                    mod.rel,
+                    sub.lineno,
+                )
+    if nidx < 3:
+        raise AnalysisError(f"only {nidx} eval_hashes[...] lookups found in executors (expected >= 3)", "eval_hashes")
 
 
 def _is_scope_expr(e, holders=("job_options",)) -> bool:
